@@ -258,6 +258,31 @@ def run_shard(pid, facet: Facet, tier, seed, shard, nshards) -> dict:
                 one(case)
         except PropertyViolation as v:
             stats.violations.append({"bucket": v.bucket, "message": v.message, "case": to_jsonable(v.case)})
+    elif getattr(facet, "stateful", False):
+        # Hypothesis rule-based state machine: rules are operations with generated arguments, the
+        # invariant runs after every step and the whole history shrinks as one value. The machine
+        # logs its history as data; a violation carries that history as the replay case, which
+        # facet.run() re-executes without Hypothesis.
+        from hypothesis.stateful import run_state_machine_as_test
+
+        sd = seed * 1000 + shard
+        steps = facet.steps(tier)
+        machine = facet.machine(lambda: Recorder(stats, known, True), stats)
+        try:
+            from hypothesis import settings as hsettings
+
+            base = hyp_settings(n, shrink=True)
+            run_state_machine_as_test(hseed(sd)(machine), settings=hsettings(base, stateful_step_count=steps))
+        except PropertyViolation as v:
+            stats.violations.append({"bucket": v.bucket, "message": v.message, "case": to_jsonable(v.case)})
+        except BaseException as e:  # noqa: BLE001
+            if isinstance(e, (KeyboardInterrupt, SystemExit)):
+                raise
+            v = _find_violation(e)
+            if v is not None:
+                stats.violations.append({"bucket": v.bucket, "message": v.message, "case": to_jsonable(v.case)})
+            else:
+                raise HarnessError(f"facet {facet.name} shard {shard}: {type(e).__name__}: {str(e)[:300]}\n{traceback.format_exc()[-2500:]}")
     else:
         strat = facet.strategy(tier)
         sd = seed * 1000 + shard
